@@ -162,6 +162,21 @@ def base_and_variants(args):
     n = 1
     for v in variants:
         kind = v[0]
+        if kind == "rerun":
+            # the same command line once more INTO the folder of the first run (--force): nothing of the first run may survive in the
+            # output files of the second
+            out = os.path.join(d, "rr")
+            shutil.rmtree(out, ignore_errors=True)
+            rc = run.run_isoquant(argv_for(cfg, paths, out), paths["home"], os.path.join(d, "v.txt"), pre_hook=cfg_hook(cfg))
+            rc2 = run.run_isoquant(argv_for(cfg, paths, out, more=["--force"]), paths["home"], os.path.join(d, "v.txt"), pre_hook=cfg_hook(cfg))
+            n += 2
+            if rc != 0 or rc2 != 0:
+                res.append((v, [("run", "exit %d / %d" % (rc, rc2))]))
+                continue
+            df = diff_trees(t0, run.read_tree(os.path.join(out, "OUT")))
+            if df:
+                res.append((v, df))
+            continue
         if kind == "repeat":
             # the SAME command line a second time (same output path, so that even the command-line header is equal): every file is
             # compared byte by byte, the gzipped ones included (their headers carry a time stamp unless the writer suppresses it)
@@ -331,7 +346,7 @@ def explore_config(ctx, cfg, n_chr, quick, tot):
         variants = [v for v in variants if len(v[1]) != len(v[2]) or len(v[1]) in (1, n_chr)]
         modes = modes[:1] + modes[4:]
         gorders = gorders[:2]
-    allv = variants + modes + gorders + [("repeat",)]
+    allv = variants + modes + gorders + [("repeat",), ("rerun",)]
     ctx.rng.shuffle(allv)
     nruns = 0
     for res, n in core.pmap(base_and_variants, [(n_chr, c, ctx.scratch, i, cfg) for i, c in enumerate(core.chunks(allv, core.NCPU))]):
